@@ -4,7 +4,8 @@
 From Tpl Require Export Exp.Parse Exp.Lit.
 Open Scope N_scope.
 
-Inductive fres := FOk (v : value) | FErrS (sentinel : N) | FPanic | FUnmodelled | FBadSecond | FBadCount.
+Inductive fres := FOk (v : value) | FErrS (sentinel : N) | FPanic | FUnmodelled | FBadSecond | FBadCount
+  | FBadArgs.   (* reflect rejects the argument count / types: the function body never runs *)
 Definition call := (N * list value)%type.
 Definition log := list call.                (* most recent first *)
 
@@ -313,6 +314,7 @@ Definition finish_call (id : N) (args : list value) (lg : log) : res value * log
   else
     let lg' := (id, args) :: lg in
     match call_fn id args with
+    | FBadArgs => (Err COther, lg)
     | FOk v => (Ok v, lg')
     | FErrS s => (Err (CUser s), lg')
     | FPanic => (Err COther, lg')
